@@ -7,7 +7,7 @@ nothing (`SkipClean(true)`, validated end to end by the correspondence runs) —
 component-wise prefix.                                                          (path_contained)
 
 It is FALSE of the code (`upload_id_escapes`, `batch_name_escapes`, `key_escapes_after_percent_decoding`,
-`copy_source_escapes_buckets_dir`, by `decide`; the same strings are replayed on the real router in
+`copy_source_escapes_buckets_dir`, `complete_key_escapes`, by `decide`; the same strings are replayed on the real router in
 corpus/C29/witnesses.ops, where another bucket is read, deleted, and directories are created outside).
 
 PROVED for all inputs (`path_contained_partial`): if no segment of x is ".." the resolved path stays
@@ -92,6 +92,18 @@ theorem key_escapes_after_percent_decoding :
 
 theorem copy_source_escapes_buckets_dir :
     clean ([buckets] ++ splitSlash (pctDecode (s "bkt/../../etc/secret"))) = [s "etc", s "secret"] := by decide
+
+/-- CompleteMultipartUpload: the upload id is a plain name below `.uploads`, the KEY carries the "..":
+    the completed object is addressed at /buckets/newbkt/obj (finding CompleteMultipartUploadHandler/writes-outside-bucket;
+    the filer creates the cleaned parent chain, i.e. the directory /buckets/newbkt) -/
+theorem complete_key_escapes :
+    addressed (s "bkt") "mpdone" (s "../newbkt/obj") (s "up1") []
+      = [[buckets, s "bkt", uploads, s "up1"], [buckets, s "newbkt", s "obj"]] ∧
+    contained (s "bkt") (addressed (s "bkt") "mpdone" (s "../newbkt/obj") (s "up1") []) = false ∧
+    reqJudge "mpdone" (s "../newbkt/obj") [] [s "/buckets/newbkt"] [s "/buckets/newbkt"] [s "/buckets/newbkt"]
+      = some "CompleteMultipartUploadHandler/writes-outside-bucket" ∧
+    reqJudge "mpdone" (s "../other/d/planted") [] [s "/buckets/other/d"] [] []
+      = some "CompleteMultipartUploadHandler/reads-outside-bucket" := by decide
 
 /-- helpers agree with what the judge assumes -/
 theorem uploads_folder_shape (b : Bytes) : genUploadsFolder b = joinSegs [buckets, b, uploads] := by
